@@ -16,7 +16,9 @@ from vlib import gherkin_render as gr
 
 PROPERTY = "C05"
 LEVEL = "model_checking"
-RULE = ("Alphabet: 33 line kinds (block keyword lines in en and de, step lines given/when/then/and/but/*, a de step, "
+RULE = ("Alphabet: 33 plain line kinds + 19 hostile-text twins (same keyword / cell count, the name, cell, tag word, "
+        "free text made of the str.format and %-interpolation metacharacters '{name} {} } { %s %(x)s %') = 52 kinds. "
+        "Plain kinds: (block keyword lines in en and de, step lines given/when/then/and/but/*, a de step, "
         "tag line, malformed tag line, table rows of 1/2 cells and one without closing pipe, both doc-string quotes, "
         "free text, text indented less than an open doc-string, comment, '# language: de', '# language: zz', blank, "
         "whitespace-only). E2: breadth-first search over line histories for each of the 5 entry points "
@@ -25,19 +27,25 @@ RULE = ("Alphabet: 33 line kinds (block keyword lines in en and de, step lines g
         "empty; every history is also terminated (EOF action). No-dedup: ALL sequences of <= 3 (quick) / <= 4 "
         "(thorough) lines per entry point, which also checks that (abstract state, line kind) determines (next "
         "abstract state, outcome class) and that no abstract state or violation class exists that the search did not "
-        "find. E3: every single-line mutation (insert each of the 33 line kinds at each position, delete, duplicate, "
-        "swap adjacent, 3 truncations per line) of rendered valid documents (every 16th of all feature shapes with "
+        "find. E3: every single-line mutation (insert each of the 52 line kinds at each position, delete, duplicate, "
+        "swap adjacent, 3 truncations per line) of rendered valid documents (every 20th of all feature shapes with "
         "<= 4 blocks in quick, all of them in thorough, plus step/scenario/rule/tag texts), and 9 catalogued fault "
         "kinds (second Feature, text after steps, Examples outside an outline, And/But without predecessor, row with "
         "one cell too many/few, malformed tag token, second Background, Background after a Scenario, table/doc-string "
         "before any step) inserted at every position where the reference acceptor calls them a fault (there: "
-        "ParserError with .line == injected line). Invariant everywhere: model/None or ParserError with 1 <= line <= number of lines, "
+        "ParserError with .line == injected line); every such fault additionally with each of the 7 hostile atoms "
+        "('{name}', '{}', '{', '}', '%s', '%(x)s', '%') placed in the faulty line and, separately, in the line before "
+        "it. A raised ParserError must also be printable (str()). Invariant everywhere: model/None or ParserError with 1 <= line <= number of lines, "
         "never another exception, at most one action call per line and pass. A history is non-trivial (counted "
         "distinct by (entry, abstract state, line kind)) when the line changes the abstract state or raises; a "
         "mutation is non-trivial when it changes the outcome of the document (counted by fault kind / mutation kind "
         "x zone).")
 ASSUMPTIONS = [
-    "line texts are fixed per kind: names/cell texts are never read back by the parser (part of the abstraction argument)",
+    "line texts are fixed per kind (a plain one and, for 19 kinds, a hostile one built from str.format / %-interpolation "
+    "metacharacters): names/cell texts are never read back by the parser (part of the abstraction argument; checked: "
+    "hostile twins reach the same abstract states)",
+    "hostile atoms cover the two formatting mechanisms used in Python messages (str.format, % interpolation); other "
+    "text classes (control characters, very long lines, non-BMP unicode) are not varied",
     "a line that behave's documented grammar takes as free-form description text (keyword-like lines directly after a "
     "Feature/Rule/Background/Scenario header) is not counted as an injected fault: the statement is silent there",
     "the language argument of the parse_* functions is not varied here (only '# language:' lines); C04 varies it",
@@ -273,6 +281,24 @@ def faults_at(c):
     return f
 
 
+def _hostile_line(text, atom):
+    """the faulty line with a hostile atom in its text (cell count / keyword unchanged)"""
+    if text.lstrip().startswith(u"|"):
+        return text.replace(u"z", atom, 1)
+    return text + u" " + atom
+
+
+def _hostile_prev(line, kind, atom):
+    """the (valid) line before the injected fault with a hostile atom in its name / cell / description / tag"""
+    if kind in ("feature", "rule", "background", "scenario", "outline", "examples", "desc", "step"):
+        return line + u" " + atom
+    if kind == "tag":
+        return line + u" @h" + atom
+    if kind == "row":
+        return line[:-2] + atom + u" |"
+    return None
+
+
 def _source(spec):
     """spec -> (entry, base lines, annotations or None)"""
     kind = spec[0]
@@ -304,9 +330,19 @@ def _mutations(entry, lines, ann):
         if ctxs:
             for name, text in faults_at(ctxs[p]):
                 yield ("fault", p, name), lines[:p] + [text] + lines[p:], name, p + 1, zone
+                for atom in ps.HOSTILE_ATOMS:
+                    yield (("fault", p, name, atom, "line"), lines[:p] + [_hostile_line(text, atom)] + lines[p:],
+                           name, p + 1, zone)
+                    prev = _hostile_prev(lines[p - 1], ann[p - 1][0], atom) if p >= 1 else None
+                    if prev is not None:
+                        yield (("fault", p, name, atom, "prev"), lines[:p - 1] + [prev, text] + lines[p:],
+                               name, p + 1, zone)
     if entry == "steps":
         for name, text in (("table-before-step", u"      | a |"), ("docstring-before-step", u'      """')):
             yield ("fault", 0, name), [text] + lines, name, 1, "start"
+            for atom in ps.HOSTILE_ATOMS:
+                hostile = text.replace(u"a", atom) if u"|" in text else text + atom
+                yield ("fault", 0, name, atom, "line"), [hostile] + lines, name, 1, "start"
     for p in range(L):
         zone = (ctxs[p + 1]["zone"] if not ctxs[p + 1]["in_doc"] else "doc") if ctxs else "-"
         yield ("del", p), lines[:p] + lines[p + 1:], None, None, zone
@@ -334,17 +370,19 @@ def _check_mutant(entry, new_lines, fault, want_line, where):
 
 
 def mutate_doc(case):
-    """("doc", spec): all single-line mutations of one valid document; ("mut", spec, mutation): replay form"""
+    """("doc", spec[, part, nparts]): all single-line mutations of one valid document (those at positions
+    p % nparts == part); ("mut", spec, mutation): replay form"""
     spec = case[1]
+    part, nparts = (case[2], case[3]) if case[0] == "doc" and len(case) == 4 else (0, 1)
     entry, lines, ann = _source(spec)
     base_text = u"\n".join(lines) + u"\n"
     base_out, _, _, calls, _ = ps.run_text(entry, base_text)
     res = []
     viol = {}
-    for d, msg in ps.invariant(entry, base_text, base_out, calls, "unmutated document"):
+    for d, msg in ps.invariant(entry, base_text, base_out, calls, "unmutated document") if part == 0 else ():
         viol[tuple(sorted(d.items()))] = [d, msg, ("none",), 1]
-    if base_out[0] != "ok" and not (entry == "rule"):
-        # parse_rule cannot parse anything today (reported through the invariant); every other base document is valid
+    if base_out[0] != "ok" and part == 0:
+        # every base document is valid
         d = {"subcheck": "e3-base", "clause": "valid-document-rejected", "entry": "parse_" + entry}
         viol.setdefault(tuple(sorted(d.items())), [d, "valid document rejected: %r\n%s" % (base_out, base_text), ("none",), 1])
     only = case[2] if case[0] == "mut" else None
@@ -355,13 +393,15 @@ def mutate_doc(case):
     for mut, new_lines, fault, want_line, zone in _mutations(entry, lines, ann):
         if only is not None and mut != only:
             continue
+        if mut[1] % nparts != part:
+            continue
         where = "mutation %r of document %r:\n%s" % (mut, spec, u"\n".join(new_lines))
         out, v = _check_mutant(entry, new_lines, fault, want_line, where)
         n += 1
         obs.append((mut, out))
         counts[(entry, "e3", out[0], out[2] if len(out) > 2 else out[1])] += 1
         if fault is not None:
-            nts.add(("fault", entry, fault, zone))
+            nts.add(("fault", entry, fault, zone) + tuple(mut[3:]))
         elif out != base_out:
             nts.add((mut[0], entry, zone, ps.KIND_NAMES[mut[2]] if mut[0] == "ins" else "", out[0]))
         for d, msg in v:
@@ -374,7 +414,7 @@ def mutate_doc(case):
         r = {"out": oc, "n": cnt, "case": case}
         if first:
             r["dg"] = digest(obs)
-            r["keep"] = sorted(set(k[2] for k in nts if k[0] == "fault"))
+            r["keep"] = sorted(set((k[2],) + tuple(k[4:5]) for k in nts if k[0] == "fault"))
             first = False
         res.append(r)
     for key in nts:
@@ -392,13 +432,16 @@ RICH = (True, ("S", "O2"), ((True, ("S", "O1")), (False, ("O1",))))
 def e3_sources(quick):
     shapes = list(gr.shapes(4))
     if quick:
-        picked = shapes[::16]
+        picked = shapes[::20]
     else:
         picked = shapes
+    nparts = 4
     for i, sh in enumerate(picked):
-        yield ("doc", ("feature", sh, i * 13))
-    yield ("doc", ("feature", RICH, 1))
-    yield ("doc", ("feature", RICH, 2))
+        for part in range(nparts):
+            yield ("doc", ("feature", sh, i * 13), part, nparts)
+    for seed in (1, 2):
+        for part in range(2 * nparts):
+            yield ("doc", ("feature", RICH, seed), part, 2 * nparts)
     args = gr.step_args()
     blocks = [[("given", u"1st step", None), ("and", u"2 things <x>", args[1]), ("then", u"3rd step, longer text", args[-1])],
               [("star", u"1st step", args[-3]), ("but", u"2 things <x>", args[2]), ("when", u"3rd step, longer text", None)]]
@@ -421,7 +464,7 @@ def run(ctx):
     maxlen = 3 if ctx.quick else 4
     ctx.bounds = {"line_kinds": NK, "bfs": "to fixpoint (frontier empty) for each of 5 entry points",
                   "no_dedup_max_lines": maxlen,
-                  "e3_documents": "every 16th feature shape <= 4 blocks" if ctx.quick else "all feature shapes <= 4 blocks"}
+                  "e3_documents": "every 20th feature shape <= 4 blocks" if ctx.quick else "all feature shapes <= 4 blocks"}
     bad = gr.unsafe_alphabet_report()
     ctx.guard(not bad, "rendered names/descriptions cannot be mistaken for keywords in any language %r" % (bad[:3],))
     # ---- E2
@@ -458,12 +501,21 @@ def run(ctx):
                   % (entry, sorted(extra_states, key=repr)[:2]))
         disagree = [(k, b["trans"][k[1:]], v) for k, v in fn.items() if k[1:] in b["trans"] and b["trans"][k[1:]] != v]
         ctx.guard(not disagree, "search and enumeration agree on every shared transition of %s (%r)" % (entry, disagree[:2]))
+        untwin = [(k, fn[k][0], fn[(k[0], k[1], ps.TWIN[k[2]])][0]) for k in fn
+                  if k[2] in ps.TWIN and (k[0], k[1], ps.TWIN[k[2]]) in fn
+                  and fn[k][1][0] != "EXC" and fn[(k[0], k[1], ps.TWIN[k[2]])][1][0] != "EXC"
+                  and fn[k][0] != fn[(k[0], k[1], ps.TWIN[k[2]])][0]]
+        ctx.guard(not untwin, "a hostile-text line kind leads to the same abstract state as its plain twin, %s (%r)"
+                  % (entry, untwin[:2]))
         hidden = [dict(k) for k in enum_classes - b["vclasses"]]
         ctx.guard(not hidden, "every violation class of the no-dedup enumeration of %s is also found by the search (%r)"
                   % (entry, hidden[:2]))
     # ---- E3
     kept = ctx.sweep(mutate_doc, e3_sources(ctx.quick), chunk=1, name="single-line mutations of valid documents", keep=True)
-    seen_faults = set(x for lst in kept for x in lst)
+    seen = set(tuple(x) for lst in kept for x in lst)
+    seen_faults = set(x[0] for x in seen)
+    missing_atoms = [(f, a) for f in sorted(seen_faults) for a in ps.HOSTILE_ATOMS if (f, a) not in seen]
+    ctx.guard(not missing_atoms, "every catalogued fault kind is also injected with every hostile atom (missing: %r)" % (missing_atoms[:3],))
     want = set(FAULT_LINES) | {"row-one-cell-too-many", "row-one-cell-too-few", "table-before-step", "docstring-before-step"}
     ctx.guard(seen_faults >= want, "every catalogued fault kind is injected at least once (missing: %s)"
               % sorted(want - seen_faults))
